@@ -25,9 +25,18 @@ func init() {
 		Rule: "generator files of PPD/CCD/CTX/WEB forward batches (every service class; codes 53/54 excluded); distinct = distinct multiset of (SEC, service class, transaction codes) per file; non-trivial = file has at least one entry",
 		Run: func(t *T) {
 			n := t.Budget(400)
-			date := time.Date(2024, 3, 15, 10, 30, 0, 0, time.UTC)
+			// the requested date is the calendar date of the time the caller passes, in the caller's location: cover zones
+			// east and west of UTC at instants whose UTC date is the next / the previous day
+			dates := []time.Time{
+				time.Date(2024, 3, 15, 10, 30, 0, 0, time.UTC),
+				time.Date(2024, 3, 15, 20, 30, 0, 0, time.FixedZone("UTC-5", -5*3600)),
+				time.Date(2024, 3, 15, 6, 15, 0, 0, time.FixedZone("UTC+9", 9*3600)),
+				time.Date(2024, 12, 31, 23, 59, 0, 0, time.FixedZone("UTC-11", -11*3600)),
+				time.Date(2025, 1, 1, 0, 1, 0, 0, time.FixedZone("UTC+14", 14*3600)),
+			}
 			for i := 0; i < n; i++ {
 				r := t.R.Fork(uint64(i))
+				date := dates[i%len(dates)]
 				f, err := gen.File(r, gen.Opts{SECs: []string{"PPD", "CCD", "CTX", "WEB"}, MaxBatches: 3, MaxEntries: 5, PresetTraces: i%2 == 0})
 				if err != nil {
 					t.Fail("C13/generator", "generator failed", nil, err.Error(), "a valid file")
